@@ -287,7 +287,7 @@ class Tables:
             a = f.node.args
             allp = a.posonlyargs + a.args
             selfname = allp[0].arg if allp else None
-        if f.is_class:
+        if f.is_class or f.owner is None:
             selfname = None
         local_types = {}
         for n in ast.walk(f.node):
@@ -421,7 +421,7 @@ class Tables:
         av = [(a, c, x) for (a, c, x) in self.attr_reads if x not in d.get(c, [])]
         return kv, av
 
-    def lean(self):
+    def lean(self, validation=None):
         def s(x):
             return '"' + x.replace("\\", "\\\\").replace('"', '\\"') + '"'
 
@@ -456,7 +456,173 @@ class Tables:
         out.append("/-- per class: every name assigned to `self` anywhere in the hierarchy, methods, properties, class attributes -/")
         out.append("def definedAttrs : List (String × List String) := [")
         out.append(",\n".join(f"  ({s(c)}, {sl(d)})" for c, d in self.defined_table()) + "]")
+        if validation is not None:
+            out += ["", validation.lean()]
         out += ["", "end NessaiVerif.Gen.Term", ""]
+        return "\n".join(out)
+
+
+# ------------------------------------------------------------------------------------------------
+# where option values are validated: `raise` sites reachable before / only after sampling starts
+# ------------------------------------------------------------------------------------------------
+OPTION_CLASSES = ["FlowSampler", "NestedSampler", "ImportanceNestedSampler", "BaseNestedSampler", "FlowProposal",
+                  "AugmentedFlowProposal", "ImportanceFlowProposal", "RejectionProposal"]
+OPTION_METHODS = [("FlowSampler", "run"), ("FlowSampler", "run_standard_sampler"), ("FlowSampler", "run_importance_nested_sampler"),
+                  ("ImportanceNestedSampler", "draw_final_samples")]
+OPTION_DATACLASSES = ["FlowConfig", "TrainingConfig"]
+NOT_OPTIONS = {"self", "model", "output", "kwargs", "resume", "resume_file", "resume_data", "weights_file", "weights_path", "pool",
+               "n_pool", "seed", "plot", "save", "flow", "flow_config", "training_config", "importance_nested_sampler"}
+# up front = constructors (and what they call) of FlowSampler / both samplers / their proposals, plus NestedSampler.initialise
+# (the standard sampler initialises its proposals, hence the flow, BEFORE drawing the live points); never past the drawing of
+# the live points.  late = reachable from the sampling loops / run methods and NOT up front (the importance sampler draws its live
+# points first and initialises its proposal afterwards)
+UPFRONT_ROOTS = [("FlowSampler", "__init__"), ("NestedSampler", "__init__"), ("ImportanceNestedSampler", "__init__"),
+                 ("FlowProposal", "__init__"), ("AugmentedFlowProposal", "__init__"), ("ImportanceFlowProposal", "__init__"),
+                 ("RejectionProposal", "__init__"), ("NestedSampler", "initialise")]
+UPFRONT_CUT = {"populate_live_points", "nested_sampling_loop"}
+LATE_ROOTS = [("NestedSampler", "nested_sampling_loop"), ("NestedSampler", "populate_live_points"),
+              ("ImportanceNestedSampler", "nested_sampling_loop"), ("FlowSampler", "run_standard_sampler"),
+              ("FlowSampler", "run_importance_nested_sampler")]
+REACH_TYPES = {("NestedSampler", "_flow_proposal"): "FlowProposal", ("NestedSampler", "_uninformed_proposal"): "RejectionProposal",
+               ("NestedSampler", "proposal"): "FlowProposal", ("FlowProposal", "flow"): "FlowModel"}
+
+
+class Reach(Tables):
+    """closure of (class, method) / ("", function) pairs reachable from `roots`, descending into module-level functions too"""
+
+    def __init__(self, ix, roots, cut):
+        self.ix = ix
+        self.call_sites, self.attr_reads, self.dyn_defined = [], [], {}
+        self.scope, self.unresolved_calls, self.files_used = [], 0, set()
+        saved = dict(ATTR_TYPES)
+        ATTR_TYPES.update(REACH_TYPES)
+        try:
+            todo, seen = list(roots), set()
+            while todo:
+                item = todo.pop(0)
+                if item in seen:
+                    continue
+                seen.add(item)
+                f = self.lookup(item)
+                if f is None:
+                    continue
+                self.scope.append(item)
+                for nxt in self.scan(item[0], f):
+                    if nxt not in seen and nxt[1] not in cut and nxt[0] not in NO_DESCENT_CLASSES:
+                        todo.append(nxt)
+        finally:
+            ATTR_TYPES.clear()
+            ATTR_TYPES.update(saved)
+
+    def lookup(self, item):
+        return self.ix.func(item[1]) if item[0] == "" else self.ix.find_method(*item)
+
+    def resolve_call(self, n, ctx, f, typeof):
+        res = super().resolve_call(n, ctx, f, typeof)
+        if res is not None and res[3] is None and res[1] is not None and res[1].owner is None:
+            return (res[0], res[1], res[2], ("", res[1].name))
+        return res
+
+
+def _parents(node):
+    par = {}
+    for n in ast.walk(node):
+        for ch in ast.iter_child_nodes(n):
+            par[ch] = n
+    return par
+
+
+class Validation:
+    """raise sites whose guarding conditions mention an option, classified up front / late"""
+
+    def __init__(self, ix):
+        self.ix = ix
+        opts = set()
+        for c in OPTION_CLASSES:
+            f = ix.find_method(c, "__init__")
+            if f is None:
+                raise Untranslatable(f"constructor of {c} not found")
+            pos, kwo, _, _, _ = f.signature(True)
+            opts |= set(pos) | set(kwo)
+        for c, m in OPTION_METHODS:
+            f = ix.find_method(c, m)
+            if f is None:
+                raise Untranslatable(f"{c}.{m} not found")
+            pos, kwo, _, _, _ = f.signature(True)
+            opts |= set(pos) | set(kwo)
+        for c in OPTION_DATACLASSES:
+            k = ix.cls(c)
+            if k is None:
+                raise Untranslatable(f"dataclass {c} not found")
+            opts |= k.class_attrs
+        self.options = opts - NOT_OPTIONS
+        self.up = Reach(ix, UPFRONT_ROOTS, UPFRONT_CUT)
+        self.late = Reach(ix, LATE_ROOTS, set())
+        upset = set(self.up.scope)
+        alias = {}
+        for reach in (self.up, self.late):
+            for item in reach.scope:
+                f = reach.lookup(item)
+                for n in ast.walk(f.node):
+                    if not isinstance(n, ast.Call):
+                        continue
+                    name = n.func.attr if isinstance(n.func, ast.Attribute) else (n.func.id if isinstance(n.func, ast.Name) else None)
+                    for k in n.keywords:
+                        v = k.value
+                        src = None
+                        if isinstance(v, ast.Attribute) and isinstance(v.value, ast.Name) and v.value.id == "self":
+                            src = v.attr.lstrip("_")
+                        elif isinstance(v, ast.Name):
+                            src = v.id
+                        if k.arg is not None and src in self.options and k.arg != src:
+                            alias.setdefault(name, {})[k.arg] = src
+        self.alias = alias
+        rows = []
+        for phase, reach, keep in (("upfront", self.up, lambda it: True), ("late", self.late, lambda it: it not in upset)):
+            for item in reach.scope:
+                if not keep(item):
+                    continue
+                f = reach.lookup(item)
+                site = f"{item[0]}.{f.name}" if item[0] else f.name
+                amap = alias.get(f.name, {})
+                par = _parents(f.node)
+                for n in ast.walk(f.node):
+                    if not isinstance(n, ast.Raise):
+                        continue
+                    ids, cur = set(), n
+                    while cur in par:
+                        p_ = par[cur]
+                        if isinstance(p_, ast.If):
+                            for t in ast.walk(p_.test):
+                                if isinstance(t, ast.Attribute) and isinstance(t.value, ast.Name) and t.value.id == "self":
+                                    ids.add(t.attr.lstrip("_"))
+                                elif isinstance(t, ast.Name):
+                                    ids.add(t.id)
+                        cur = p_
+                    exc = "?"
+                    if isinstance(n.exc, ast.Call) and isinstance(n.exc.func, ast.Name):
+                        exc = n.exc.func.id
+                    elif isinstance(n.exc, ast.Name):
+                        exc = n.exc.id
+                    o = sorted({amap.get(i, i) for i in ids} & self.options)
+                    if o:
+                        rows.append((phase, site, exc, tuple(o)))
+        self.rows = _dedupe(rows)
+
+    def late_options(self):
+        out = []
+        for phase, _, _, o in self.rows:
+            if phase == "late":
+                out += [x for x in o if x not in out]
+        return out
+
+    def lean(self):
+        def s(x):
+            return '"' + x + '"'
+        out = ["/-- `raise` statements guarded by a condition that mentions an option: phase \"upfront\" = reachable from the constructors /",
+               "    NestedSampler.initialise before the live points are drawn; \"late\" = reachable only once sampling has started -/",
+               "def raiseSites : List RaiseSite := ["]
+        out.append(",\n".join(f"  ⟨{s(ph)}, {s(site)}, {s(exc)}, [{', '.join(s(x) for x in o)}]⟩" for ph, site, exc, o in self.rows) + "]")
         return "\n".join(out)
 
 
